@@ -5,6 +5,71 @@ from props import geomops_common as gc
 PIPES = {"geomops": gc.pipe("C01")}
 
 
+STRIDE = {"No": 0, "XY": 2, "XYZ": 3, "XYM": 3, "XYZM": 4, "L5": 5, "L6": 6}
+
+
+def C(s, j, d=0):
+    """the j-th distinguishable coordinate of stride s, d ordinates too long (d > 0) or too short (d < 0)"""
+    return [10 * j + i for i in range(1, s + d + 1)]
+
+
+def wrong_length_values(k, s):
+    """Values for SetCoords in which at least one coordinate has the wrong length: one too long, one too short, two whose
+    length errors CANCEL (so that the total number of ordinates is a multiple of the stride), at the first / a middle /
+    the last position, in the first or a later line / ring / polygon."""
+    lines = []
+    for d in ([1, -1, 2] if s >= 2 else [1, 2]):
+        if s + d < 0:
+            continue
+        lines += [[C(s, 1, d)], [C(s, 1), C(s, 2, d)], [C(s, 1, d), C(s, 2), C(s, 3)], [C(s, 1), C(s, 2, d), C(s, 3)]]
+    if s >= 1:
+        lines += [[C(s, 1, 1), C(s, 2, -1)], [C(s, 1, -1), C(s, 2, 1)], [C(s, 1, 1), C(s, 2), C(s, 3, -1)],
+                  [C(s, 1), C(s, 2, -1), C(s, 3, 1)]]
+    if s >= 2:
+        lines += [[C(s, 1, s), C(s, 2, -s)] + [C(s, 3)], [C(s, 1, 2), C(s, 2, -2)] if s > 2 else [C(s, 1, 2), C(s, 2, -2), C(s, 3)]]
+    good = [C(s, 1), C(s, 2)] if s else []
+    if k == "PT":
+        return [C(s, 1, d) for d in (1, -1, 2) if s + d > 0] + ([C(s, 1, s)] if s else [])
+    if k in ("LS", "LR"):
+        return lines
+    if k in ("PG", "MLS"):
+        out = [[l] for l in lines] + [[good, l] for l in lines] + [[[], l, good] for l in lines[:6]]
+        if s >= 1:      # the errors cancel ACROSS two lines / rings
+            out += [[[C(s, 1, 1)], [C(s, 2, -1)]], [[C(s, 1), C(s, 2, 1)], [C(s, 1, -1), C(s, 2)]]]
+        return out
+    if k == "MPT":
+        out = [[C(s, 1, d)] for d in (1, -1) if s + d > 0] + [[C(s, 1), C(s, 2, 1)], [C(s, 1, 1), C(s, 2, -1)] if s > 1 else [C(s, 1, 1)]]
+        return out
+    if k == "MPG":
+        out = [[[l]] for l in lines] + [[[good], [good, l]] for l in lines[:8]] + [[[], [l], [good]] for l in lines[:6]]
+        if s >= 1:
+            out += [[[[C(s, 1, 1)]], [[C(s, 2, -1)]]], [[[C(s, 1, 1)], [C(s, 2, -1)]]]]
+        return out
+    return []
+
+
+def setbad_cases(ctx):
+    """The stride-mismatch clause: every kind x layout, the wrong-length value set on a fresh object and on one that already
+    holds coordinates. Decided by GeomOpsObs (MODE C01): error class "stride", every projection well formed."""
+    good = {"PT": lambda s: C(s, 3), "LS": lambda s: [C(s, 1), C(s, 2)], "LR": lambda s: [C(s, 1), C(s, 2)],
+            "PG": lambda s: [[C(s, 1), C(s, 2)], []], "MLS": lambda s: [[C(s, 1), C(s, 2)], []],
+            "MPT": lambda s: [C(s, 1), C(s, 2)], "MPG": lambda s: [[[C(s, 1), C(s, 2)]], []]}
+    layouts = ["XY", "XYZM", "L5", "No"] if ctx.quick else ["No", "XY", "XYZ", "XYM", "XYZM", "L5", "L6"]
+    cases = []
+    for k in ("PT", "LS", "LR", "PG", "MLS", "MPT", "MPG"):
+        for l in layouts:
+            s = STRIDE[l]
+            for v in wrong_length_values(k, s):
+                cases.append(dict(k=k, l=l, hist=[dict(op="setbad", to=1, v=v)]))
+                if s:
+                    cases.append(dict(k=k, l=l, hist=[dict(op="setcoords", to=2, v=good[k](s)), dict(op="setbad", to=2, v=v)]))
+    return cases
+
+
 def run(ctx, verdict):
     cfg = "GeomOps_C01_quick.cfg" if ctx.quick else "GeomOps_C01_thorough.cfg"
     gc.explore(ctx, verdict, "C01", cfg)
+    cases = setbad_cases(ctx)
+    vlib.note_cases(ctx, cases)
+    ctx.coverage_extra["stride_mismatch_cases"] = len(cases)
+    gc.pipe("C01")(ctx, verdict, cases, name="geomops")
